@@ -39,7 +39,7 @@ CHECKS = {
          "DESIGN.md §4 C11",
          "Trusts go/ssa, the fact engine in pathfacts.go and the template instantiator; assumes C13's in-bounds invariant."),
  "C05": ("go/ssa call-routing and value-shape rules on the printers of every AST-enabled template instantiation and peg.peg.go",
-         "Decides only two necessary conditions: quoted node text is the rune slice [begin:end] (no string is indexed anywhere in the runtime) and every printer prints AST() with the parser's own Buffer naming nodes by their own rule. The nesting algorithm of AST() is explicitly NOT decided (value-level).",
+         "Decides only two necessary conditions: quoted node text is the rune slice [begin:end] (no string is indexed anywhere in the runtime) and every printer prints AST() with the parser's own Buffer naming nodes by their own rule. Also decides AST()'s adoption test over all orderings of the four offsets it compares (nested, equal spans included ⇒ adopted; before ⇒ not). The rest of the nesting algorithm (pointer surgery, sibling order) is explicitly NOT decided.",
          "DESIGN.md §4 C05",
          "Partial claim; trusts go/ssa and the instantiator; assumes C03 (post-order token list)."),
  "C01": ("abstract interpretation of the emitter's source (E1) into operator templates on model trees with opaque children; instantiation of the runtime template (E3); disjunctive typestate dataflow on go/cfg of each emitted rule function compared with an independent PEG oracle (E2)",
